@@ -113,3 +113,8 @@ emit("F17-as-own-type-dropped","C09","C04.should-succeed",h,"Provide(func() I3, 
 # F18: a grouped result with the same interface listed twice in dig.As is delivered twice
 h=H(); h.provide(0,[],["V0@g1"],**{"as":[16,16],"go":"g1"}); h.invoke(0,["I0@g1"])
 emit("F18-group-duplicate-as","C10","C10.group-content",h,"Provide(func() V0, Group(\"g1\"), As(new(I0), new(I0))): consumers of []I0 in g1 receive the member twice",kind="hist:groups")
+# F24: a value-group consumer (or decorator result) declared with a NAMED slice type misses the group decoration
+h=H(); h.provide(0,[],["V0@g1"]); h.decorate(0,[],["V0@g1!2"]); h.invoke(0,["V0@g1"]); h.fns[-1]["p"][0]["sl"]=1
+emit("F24a-named-slice-consumer-undecorated","C12","C12.group-decorated-content",h,"decorator returns []V0 for group g1; a consumer declaring the group as the named slice type SV0 receives the undecorated members",kind="hist:decor")
+h=H(); h.scope(0); h.provide(0,[],["V0@g1"]); h.decorate(0,[],["V0@g1!1"]); h.decorate(1,[],["V0@g1!2"]); h.fns[-1]["r"][0]["sl"]=2; h.invoke(1,["V0@g1"])
+emit("F24b-named-slice-decorator-bypassed","C12","C12.group-decorated-content",h,"the child's group decorator returns the named slice type TV0: a []V0 consumer in the child receives the ROOT decorator's output",kind="hist:decor")
